@@ -61,6 +61,25 @@ enum Entry {
 
 const NAMES: [&str; 8] = ["length", "abs", "type", "not_null", "f", "g", "rec", "Length"];
 
+/// Names that are easy to confuse in a table keyed by anything less than the whole name:
+/// same length and long common prefix, same prefix and different length, case variants,
+/// prefixes and extensions of built-in names.
+const CONFUSABLE: [&str; 24] = [
+    "custom_function_a", "custom_function_b", "custom_function_c", "custom_function_ab", "custom_function_", "Custom_function_a",
+    "a_very_long_function_name_0001", "a_very_long_function_name_0002", "a_very_long_function_name_0010", "a_very_long_function_name_1001",
+    "sort_b", "sort_by_", "sort_bY", "len", "lengthy", "to_strin", "to_string2", "_", "__", "f0", "f1", "F", "ab", "ba",
+];
+
+/// The names one history works with: the fixed core plus a few confusable ones.
+fn history_names(rng: &mut Rng) -> Vec<&'static str> {
+    let mut v: Vec<&'static str> = NAMES.to_vec();
+    let start = rng.below(CONFUSABLE.len());
+    for k in 0..4 {
+        v.push(CONFUSABLE[(start + k) % CONFUSABLE.len()]);
+    }
+    v
+}
+
 /// Harness-side description of an argument type (independent of the crate's validator).
 #[derive(Clone, Debug)]
 enum Spec {
@@ -190,7 +209,8 @@ fn model_signature(k: usize, args: &[Arg]) -> Result<(), &'static str> {
     Ok(())
 }
 
-const ARG_TEXTS: [&str; 20] = [
+const ARG_TEXTS: [&str; 36] = [
+    "xs[-1]", "xs[0]", "rows[-1].name", "[-1]", "b.c[-1].d", "xs[-2:]", "xs[1:]", "rows[*].name", "rows[?name == 'y'] | [0]", "@.a", "xs | [-1]", "b.c[0]", "*", "xs[5]", "xs[-5]", "b.c[-1]",
     "@", "`1`", "'s'", "`[1, 2]`", "`{\"a\": 1}`", "&@", "`-2.5`", "a", "`[[1], [2, 3]]`", "`[[1], [\"a\"]]`", "`[[\"a\"], [1]]`", "`[\"x\", [1], \"y\"]`",
     "`[[1], \"x\", [\"y\"]]`", "`true`", "`null`", "`[{}, {\"a\": 1}]`", "`[{}, 1]`", "`[]`", "`[[true], [false, true]]`", "`[[true], [1]]`",
 ];
@@ -214,8 +234,9 @@ pub fn run(args: &Args) {
         let mut rt = Runtime::new();
         let mut model: HashMap<String, Entry> = HashMap::new();
         let mut trace: Vec<String> = vec![];
+        let names = history_names(&mut rng);
         for _ in 0..ops_per_history {
-            let name = NAMES[rng.below(NAMES.len())];
+            let name = names[rng.below(names.len())];
             match rng.below(10) {
                 0 | 1 | 2 => {
                     let id = next_id;
@@ -255,8 +276,16 @@ pub fn run(args: &Args) {
                 }
             }
             // probes after every step
-            let doc = [json!("abc"), json!(-3), json!([1, 2]), json!({"a": 1})][rng.below(4)].clone();
-            for probe in NAMES.iter() {
+            let doc = [
+                json!("abc"),
+                json!(-3),
+                json!([1, 2]),
+                json!({"a": 1}),
+                json!({"a": {"z": 0}, "xs": [1, 2, 3], "rows": [{"name": "x"}, {"name": "y"}], "b": {"c": [1, {"d": 2}]}}),
+                json!({"a": "s", "xs": [[1], "t"], "rows": [], "b": {"c": [{"d": null}]}}),
+            ][rng.below(6)]
+            .clone();
+            for probe in names.iter() {
                 rep.evaluations += 1;
                 let present = rt.get_function(probe).is_some();
                 if present != model.contains_key(*probe) {
